@@ -11,6 +11,7 @@ import Driver.OpsBuf
 import Driver.OpsSolver
 import Driver.OpsEquiv
 import Driver.OpsComb
+import Driver.OpsSet
 import Driver.OpsNewton
 import Driver.OpsLin
 import Driver.OpsSys
@@ -24,7 +25,7 @@ open Ibex Ibex.Proto
 def handlers : List (String → List String → List String → Option String) :=
   [Ibex.Driver.opsItv, Ibex.Driver.opsBox, Ibex.Driver.opsBwd, Ibex.Driver.opsExpr, Ibex.Driver.opsCtc,
    Ibex.Driver.opsSym, Ibex.Driver.opsCov, Ibex.Driver.opsBuf, Ibex.Driver.opsSolver, Ibex.Driver.opsEquiv,
-   Ibex.Driver.opsComb, Ibex.Driver.opsNewton, Ibex.Driver.opsLin, Ibex.Driver.opsSys, Ibex.Driver.LA.opsLinAlg, Ibex.Driver.opsOptim, Ibex.Driver.IN.opsInner, Ibex.Driver.opsMinibex]
+   Ibex.Driver.opsComb, Ibex.Driver.opsSet, Ibex.Driver.opsNewton, Ibex.Driver.opsLin, Ibex.Driver.opsSys, Ibex.Driver.LA.opsLinAlg, Ibex.Driver.opsOptim, Ibex.Driver.IN.opsInner, Ibex.Driver.opsMinibex]
 
 def dispatch (op : String) (ins outs : List String) : String :=
   (handlers.findSome? fun h => h op ins outs).getD "bad-op"
